@@ -43,7 +43,9 @@ extern int bl_exc, bl_exc_line, bl_exc_col;
 static inline void bl_throw(int c, int l, int col) { bl_exc = BL_EXC(c); bl_exc_line = l; bl_exc_col = col; }
 static inline void bl_throw_std(void) { bl_exc = BL_EXC_STD; bl_exc_line = 0; bl_exc_col = 0; }
 
-#define BL_IDX(i, n) (bl_bounds((size_t)(i) < (size_t)(n)), (i))
+/* evaluates its index exactly once (the index expression may have side effects, e.g. m_position++) */
+static inline size_t bl_idx(size_t i, size_t n) { bl_bounds(i < n); return i; }
+#define BL_IDX(i, n) bl_idx((size_t)(i), (size_t)(n))
 #define VEC_SIZE(v) ((v).size)
 #define VEC_AT(v, i) ((v).data[BL_IDX(i, (v).size)])
 #define BL_MIN(a, b) ((a) < (b) ? (a) : (b))
